@@ -78,7 +78,7 @@ class SymEnum:
         return "<sym>"
 
 
-SCHEMES = ("", "http", "https")
+SCHEMES = ("", "http", "https", "ws", "wss")
 METHODS = ("GET", "POST", "HEAD")
 
 
@@ -308,7 +308,8 @@ def _run(u: U, entry_only: bool, canary: bool = False):
             return "REQ-COOKIES"
 
     class _Connector:
-        allowed_protocol_schema_set = frozenset({"http", "https"})
+        # the live set of the default connector: http, https, ws, wss and '' (the session also drives ws_connect)
+        allowed_protocol_schema_set = __import__("aiohttp.connector").connector.BaseConnector.allowed_protocol_schema_set
         _timeout_ceil_threshold = 5
 
     class _Loop:
@@ -323,6 +324,10 @@ def _run(u: U, entry_only: bool, canary: bool = False):
 
     trust_env = u.bool("trust_env")
     first_url = SUrl(u, oid0, SymEnum(u, "scheme0", SCHEMES), userinfo=None, tag="first")
+    # ghost: the caller's own URL was a ws(s) URL (ws_connect); fixed for the whole chain
+    ws_session = first_url.scheme.is_one_of("ws", "wss") if entry_only else u.bool("ws_session")
+    if not entry_only:
+        u.assume(Iff(ws_session, first_url.scheme.is_one_of("ws", "wss")))
     h0 = Hdrs(u, {k: u.bool(f"caller.{k}") for k in CRED})
     cur = {"url": first_url}
 
@@ -341,7 +346,8 @@ def _run(u: U, entry_only: bool, canary: bool = False):
                 "per-request cookies are merged in only for the origin of the first URL")
         u.check("C17.jar.reselected_per_hop", cookies.for_url is url and G["filtered_for"] is url,
                 "jar cookies are selected afresh for the URL of this very hop")
-        u.check("C17.scheme.http_only", url.scheme.is_one_of("http", "https"), "only http(s) targets are requested")
+        u.check("C17.scheme.known_only", url.scheme.is_one_of("", "http", "https", "ws", "wss"),
+                "only http(s) / ws(s) targets are ever requested (redirect targets: http(s) only, see invariant `http`)")
         u.check("C17.url.no_embedded_credentials", url.userinfo is False, "userinfo is stripped from the URL sent")
         req = type("Req", (), {})()
         req._body = Body(u, log) if data is not None else Body(u, log)
@@ -444,7 +450,9 @@ def _run(u: U, entry_only: bool, canary: bool = False):
         return [("cred", Implies(Or(h.any_caller(), cookies is not None), url.oid == oid0)),
                 ("derived", Implies(h.derived, h.derived_oid == url.oid)),
                 ("count", And(red == hc, red >= 0, Or(max_redirects == 0, red < max_redirects))),
-                ("http", url.scheme.is_one_of("http", "https")),
+                # the first URL may be ws(s) (ws_connect); every redirect TARGET must be http(s): non-HTTP refused
+                # ('' = scheme-less URL, treated as http by the connector; it is in HTTP_AND_EMPTY_SCHEMA_SET)
+                ("http", Or(url.scheme.is_one_of("", "http", "https"), And(ws_session, url.scheme.is_one_of("ws", "wss")))),
                 ("hist_released", released)]
 
     def fresh_data(nm):
